@@ -748,7 +748,8 @@ class SSHTransportBase(protocol.Protocol):
             # only in '\n'.
             # https://tools.ietf.org/html/rfc4253#section-4.2
             lines = self.buf.split(b"\n")
-            for p in lines:
+            # The last element is not a line yet: its end has not arrived.
+            for p in lines[:-1]:
                 if p.startswith(b"SSH-"):
                     self.gotVersion = True
                     # Since the line was split on '\n' and most of the time
@@ -760,6 +761,11 @@ class SSHTransportBase(protocol.Protocol):
                         return
                     i = lines.index(p)
                     self.buf = b"\n".join(lines[i + 1 :])
+                    # What follows the version line is packet data.
+                    break
+            else:
+                # Only lines that come before the version line so far.
+                return
         packet = self.getPacket()
         while packet:
             messageNum = ord(packet[0:1])
